@@ -137,8 +137,8 @@ CHECKS = {
         design="DESIGN.md §4 C15",
     ),
     "C16": dict(
-        rules="R16.1-R16.12",
-        what="exception containment of the serve loop by may-raise summaries; status-file removal on every CFG exit of serve; per-connection reset of IPCServer framing state; frame consumption order in frame_from_buffer and writer/reader header agreement; request keys are membership-tested, **data reaches a command only after signature binding, a rejected stop does not exit; rejected requests flush the file system cache; handlers do not assert on request data; handlers that run an engine over the fine-grained manager flush the file-system cache on every exit (R16.11); a `**kwargs` handler binds the keys to its callee's signature before forwarding them (R16.12)",
+        rules="R16.1-R16.13",
+        what="exception containment of the serve loop by may-raise summaries; status-file removal on every CFG exit of serve; per-connection reset of IPCServer framing state; frame consumption order in frame_from_buffer and writer/reader header agreement; request keys are membership-tested, **data reaches a command only after signature binding, a rejected stop does not exit; rejected requests flush the file system cache; handlers do not assert on request data; handlers that run an engine over the fine-grained manager flush the file-system cache on every exit (R16.11); a `**kwargs` handler binds the keys to its callee's signature before forwarding them (R16.12); request values are compared with the handlers' annotations before the handler runs, and every annotation spelling the handlers use is understood by that check (R16.13)",
         quant="client behaviours and stream segmentations",
         technique="interprocedural may-raise summaries + CFG must-pass-through / pairing queries",
         note="Trusted: the frozen standard-library may-raise table (sa/raises.py); POSIX branches only. Byte-level reassembly for every chunking is value-level and not decided.",
